@@ -26,6 +26,7 @@ class Plan:
     claim: str = ""                                     # MANIFEST level_claimed.text
     level_note: str = ""
     technique: str = ""
+    relevance: dict = field(default_factory=dict)       # obligation-name pattern -> L1 feature expression (see hv.verify.relevance_check)
 
 
 COMMON_ASSUMPTIONS = [
@@ -103,6 +104,7 @@ def _own(*needles):
     return f
 
 
+PLANS["C05"].own = _own()          # C05 needs less than exact layout: a refuted refinement obligation is decided by the C05 oracle
 PLANS["C07"].own = _own()          # exact refinement of the renderer supports C07; a refuted refinement obligation is decided by the C07 oracle
 plan(Plan(
     id="C02", title="Plain-text children are inert data",
@@ -174,3 +176,20 @@ plan(Plan(
                  "the remove_class theorems assume the attribute map has one `class` entry (classOnce), which holds for every real dict (classOnce_of_nodup)",
                  "add_class on an HTML()-marked class value stores the token attribute-escaped (C03): the token theorems are stated for plain class values"],
 ))
+
+
+# A refuted refinement obligation of the renderer is the property's own failure when its counterexamples need the
+# property's feature (decided by re-discharging with the feature excluded); otherwise the property oracle decides.
+PLANS["C02"].relevance = {"Tag.get_html_string:path": "hasTopTxt(kidsOfN(self))", "TagList.get_html_string:loop0": "isTxtN(c)"}
+PLANS["C04"].relevance = {"Tag.get_html_string:path": "hasTopRawOrRp(kidsOfN(self)) or noEsc(nameOf(self)) or hasAttrs(self)",
+                          "TagList.get_html_string:loop0": "isRawOrRp(c) or isTxtN(c)"}
+PLANS["C07"].relevance = {"Tag.get_html_string:path": "hasTopMeta(kidsOfN(self))", "TagList.get_html_string:loop0": "isMeta(c)"}
+PLANS["C05"].relevance = {"Tag.get_html_string:path": "not wsOf(self)", "TagList.get_html_string:loop0": "not isBlock(c)"}
+PLANS["C03"].relevance = {"Tag.get_html_string:path": "hasAttrs(self)"}
+PLANS["C03"].contracts = PLANS["C03"].contracts + [q for q in RENDER_FNS if q not in PLANS["C03"].contracts]
+
+# C06 quantifies over validly nested trees only: a refuted refinement obligation is C06's own failure iff it is still
+# refuted on that domain
+PLANS["C06"].own = _own("html_escape", "_normalize_text")
+PLANS["C06"].relevance = {"Tag.get_html_string:path": ("within", "valid(self)"), "TagList.get_html_string:loop0": ("within", "valid(c)"),
+                          "TagList.get_html_string:path": ("within", "validL(self)")}
